@@ -59,6 +59,8 @@ class Tr:
         if e is sp.I:
             return (z3.RealVal(0), z3.RealVal(1))
         if e.is_Symbol:
+            if e.name.startswith("_prob"):
+                raise Untranslatable("constant of a Bernoulli abstraction (_prob = P(condition)) is not a free parameter")
             return (self.sym(e.name), None)
         if e.is_Add:
             re, im = None, None
